@@ -2,7 +2,7 @@
 from tools.vlib import *
 
 PID = "C20"
-READY = False
+READY = True
 MANIFEST = {
     "level_text": "Lean 4 theorems about a model of Node::perform_handshake (cooldown record, reputation, key registration), "
                   "Node::handle_transport_handshake and the acknowledging/registering part of SessionManager::handle_pending_handshake, "
